@@ -69,6 +69,10 @@ def _setup(c, ci):
     nt = sym_size(c, 'nt')
     add_var(ds, 'temp', ('time', first), sym_array(c, 'temp', (nt, sizes[first]), 'V'), {'units': 'C'})
     ds.attrs['history'] = 'made by a model'
+    # coordinates that are NOT geometry: a scalar coordinate (left behind by isel(time=k)) and an auxiliary coordinate on a grid dimension
+    add_var(ds, 'time_of_snapshot', (), sym_array(c, 'tsnap', (1,), 'V').reshape(()) if False else np.NDArray((), lambda i: sym_array(c, 'tsnap', (1,), 'V').fn((0,)), np.OPAQUE),
+            {'long_name': 'valid time'}, coord=True)
+    add_var(ds, 'cell_label', (first,), sym_array(c, 'label', (sizes[first],), 'V'), {'long_name': 'label'}, coord=True)
     # A-INT32-SIZE: every geometry variable has fewer than 2^31 elements (hash_int raises OverflowError otherwise,
     # by design -- that guard is its own obligation below)
     for g in G:
